@@ -1,13 +1,33 @@
 import SieveModel.Model.Lexer
-/-! # C06 — quoting lemmas (theorems follow) -/
+import SieveModel.Lemmas.Factory
+import SieveModel.Generated.Tables
+import SieveModel.Generated.FactoryData
+import SieveModel.Model.Show
+/-!
+# C06 — every script the filter factory generates is valid and self-sufficient
+
+Model: `Model/Factory.lean` transliterates `FiltersSet.__create_filter` and what it calls (`require`,
+`check_if_arg_is_extension`, `__quote*`, `__add_match_tag`, `__build_condition`), driving the same argument
+interpreter as the parser model.  It is tied to `/repo` by the `factory-build` correspondence (requirement
+list and tree, or error class, on generated and deliberately malformed descriptions) and by two regenerated
+dictionaries (`Generated/FactoryData.lean`).
+
+Proved here:
+* `requirements_cover_every_extension_used` (every table satisfying the decidable `Factory.tableOK`, every
+  description whose actions name controls or actions, every starting requirement list): if the construction
+  succeeds and leaves the requirement list `r`, then the same construction **with every extension check
+  switched on** — `get_command_instance(checkexists=True)`, `check_next_arg(check_extension=True)`, i.e. what
+  the parser insists on when it meets the same commands and arguments — succeeds with the same tree against
+  any loaded list `L ⊇ r` (containing what was loaded globally during the call).  So the `require` the set
+  renders names every extension any of its filters uses, and stays sufficient when further filters add to it.
+* `live_factory_tables_ok`: the table and the two dictionaries regenerated from `/repo` satisfy `tableOK`
+  (kernel evaluation).
+* `quoted_value_is_one_string_token`: the lexer reads a quoted value as exactly one string token, whatever the
+  value contains.
+The rendering and re-parsing of the tree is decided by the oracle on the real code (and by C04's theorems).
+-/
 namespace C06
-
-/-- `'"%s"' % value.replace("\\", "\\\\").replace('"', '\\"')` -/
-def escape : Bytes → Bytes
-  | [] => []
-  | c :: rest => if c == 92 then 92 :: 92 :: escape rest else if c == 34 then 92 :: 34 :: escape rest else c :: escape rest
-
-def quote (v : Bytes) : Bytes := [34] ++ escape v ++ [34]
+open Factory
 
 /-- the lexer reads a quoted value as exactly one string token, whatever the value contains:
     user data cannot end the string early or contribute another token -/
@@ -29,5 +49,43 @@ theorem quoted_value_is_one_string_token (v rest : Bytes) :
         simp only [List.cons_append]
         rw [Lex.stringEnd.eq_def]
         simp [h1', h2', ih]
+
+/-- the factory's view of the live code: command table and the two dictionaries regenerated from `/repo` -/
+def liveCfg (gl : List Bytes) : Cfg :=
+  { T := Generated.builtinTable, matchExt := Generated.matchTypeExt, argExt := Generated.argsUsingExtensions, gl := gl }
+
+/-- the regenerated table and dictionaries satisfy the conditions of the theorem -/
+theorem live_factory_tables_ok : tableOK (liveCfg []) = true := by decide +kernel
+
+/-- **the requirement list covers every extension the construction relies on** -/
+theorem requirements_cover_every_extension_used (cfg : Cfg) (hs : cfg.strict = none) (hT : tableOK cfg = true)
+    (reqs : List Bytes) (conds acts : List (List Val)) (matchtype : Bytes) (hacts : ∀ a ∈ acts, ActOK cfg a)
+    (r : List Bytes) (n : Node) (h : createFilter cfg reqs conds acts matchtype = (r, .ok n)) :
+    (∀ x ∈ reqs, x ∈ r) ∧
+    ∀ L, (∀ x ∈ r, x ∈ L) → (∀ x ∈ cfg.gl, x ∈ L) →
+      createFilter (cfg.strictWith L) reqs conds acts matchtype = (r, .ok n) :=
+  createFilter_sim cfg hs (tableOK_sound cfg hT) reqs conds acts matchtype hacts r n h
+
+/-- the same for the live code, nothing loaded globally (a fresh interpreter, or after any parse that required
+    nothing): the strict construction succeeds against the produced requirement list itself -/
+theorem requirements_cover_every_extension_used_live (reqs : List Bytes) (conds acts : List (List Val)) (matchtype : Bytes)
+    (hacts : ∀ a ∈ acts, ActOK (liveCfg []) a) (r : List Bytes) (n : Node)
+    (h : createFilter (liveCfg []) reqs conds acts matchtype = (r, .ok n)) :
+    createFilter ((liveCfg []).strictWith r) reqs conds acts matchtype = (r, .ok n) :=
+  (requirements_cover_every_extension_used (liveCfg []) rfl
+    (by have := live_factory_tables_ok; exact this) reqs conds acts matchtype hacts r n h).2 r (fun _ hx => hx)
+    (by intro x hx; simp [liveCfg] at hx)
+
+/-- non-vacuity: `fileinto :copy` under a `:regex` header test — both extensions and the command's own end up required,
+    and the strict construction against exactly that list gives the same tree; against a list without `copy` it fails -/
+example :
+    (createFilter (liveCfg []) [] [[.s (sb "Subject"), .s (sb ":regex"), .s (sb "a.*")]]
+        [[.s (sb "fileinto"), .s (sb ":copy"), .s (sb "INBOX")]] (sb "anyof")).1
+      = [sb "regex", sb "fileinto", sb "copy"] := by decide +kernel
+example :
+    (match (createFilter ((liveCfg []).strictWith [sb "regex", sb "fileinto"]) [] [[.s (sb "Subject"), .s (sb ":regex"), .s (sb "a.*")]]
+        [[.s (sb "fileinto"), .s (sb ":copy"), .s (sb "INBOX")]] (sb "anyof")).2 with
+      | .error (.cmd (.extNotLoaded e)) => e == sb "copy"
+      | _ => false) = true := by decide +kernel
 
 end C06
